@@ -20,6 +20,21 @@ def tlc_replay(run, name, module, cfg, family, profiles=('debug',), workers=None
         pass
 
 
+def trace_violation(job, module, cfg, msg, rejected, trace):
+    """A recording the trace validator rejected, as a self-contained violation record: the rejected line travels with it, so that
+    `bin/check --replay` can put it before the validator again."""
+    line = None
+    m = re.match(r'<<"REJECTED", (\d+)', rejected or '')
+    if m:
+        try:
+            line = open(trace).read().splitlines()[int(m.group(1)) - 1]
+        except Exception:
+            line = None
+    if line is not None and len(line) > 4000000:
+        line = None
+    return dict(family=None, job=job, msg=msg, rec=None, rejected=rejected, trace=trace, trace_line=line, module=module, cfg=cfg)
+
+
 def grammar(run, fam, family='syntax', profiles=('debug',), parts=None):
     """parts (family e2e): 'run' compares the run with the model's, 'lint' the lint report, None both"""
     env = None
@@ -103,8 +118,8 @@ def C14(run):
                 rejected = l.strip()[:4000]
         if rejected is None:
             raise ToolError('TableTrace failed without a rejected event: %s (see %s)' % (res['error'], tout))
-        run.violations.append(dict(family=None, job='tabletrace', msg='a law of Laws.tla fails on the implementation\'s recorded table',
-                                   rec=None, rejected=rejected, trace=trace))
+        run.violations.append(trace_violation('tabletrace', 'TableTrace.tla', 'TableTrace.cfg',
+                                              'a law of Laws.tla fails on the implementation\'s recorded table', rejected, trace))
 
 
 def C06(run):
@@ -157,8 +172,7 @@ def record_validate(run, name, family, module, cfg, n, maxlen, xss='64m', timeou
                     rejected = l.strip()[:3000]
             if rejected is None:
                 raise ToolError('trace validation %s failed without a rejected event: %s (see %s)' % (name, res['error'], out))
-            run.violations.append(dict(family=None, job=name, msg='recorded implementation trace rejected by %s' % module,
-                                       rec=None, rejected=rejected, trace=trace))
+            run.violations.append(trace_violation(name, module, cfg, 'recorded implementation trace rejected by %s' % module, rejected, trace))
         if accepted:
             for f in (trace, out):
                 try:
@@ -307,8 +321,8 @@ def corpustrace(run, cfg='InterpTrace.cfg'):
                 rejected = l.strip()[:3000]
         if rejected is None:
             raise ToolError('corpus trace validation failed without a rejected event: %s (see %s)' % (res['error'], out))
-        run.violations.append(dict(family=None, job='corpustrace', msg='recorded run of a corpus program rejected by InterpTrace.tla',
-                                   rec=None, rejected=rejected, trace=trace))
+        run.violations.append(trace_violation('corpustrace', 'InterpTrace.tla', cfg, 'recorded run of a corpus program rejected by InterpTrace.tla',
+                                              rejected, trace))
 
 
 CORPUS_NOTE = ('; the Rockstar programs of the repository\'s own integration tests (corpus/, fixed copies) are run on the real front end and '
@@ -389,8 +403,8 @@ def clitrace(run, fams, only=None):
                 rejected = l.strip()[:4000]
         if rejected is None:
             raise ToolError('CliTrace failed without a rejected event: %s (see %s)' % (res['error'], out))
-        run.violations.append(dict(family=None, job='clitrace', msg='observed run of the rrss binary rejected by CliTrace.tla',
-                                   rec=None, rejected=rejected, trace=trace))
+        run.violations.append(trace_violation('clitrace', 'CliTrace.tla', 'CliTrace.cfg', 'observed run of the rrss binary rejected by CliTrace.tla',
+                                              rejected, trace))
 
 
 def C08(run):
